@@ -4,7 +4,7 @@
 import json
 import vlib
 
-STATIC_PROPS = {"C02", "C03", "C04", "C05", "C06", "C07", "C08", "C12", "C13", "C14", "C15"}
+STATIC_PROPS = {"C01", "C02", "C03", "C04", "C05", "C06", "C07", "C08", "C12", "C13", "C14", "C15"}
 
 COMMON_ASSUMPTIONS = [
     "A1 the crate is built natively (rlib from /repo/src/lib.rs with the verification cfg); the wasm32 artefact itself is not exercised",
